@@ -14,6 +14,7 @@ import (
 	"fmt"
 	"io"
 	"os"
+	"runtime"
 	"sort"
 	"strings"
 	"testing"
@@ -256,6 +257,9 @@ func (e *vfFwdExec) enabled() []string {
 				// can unblock it - as in gRPC)
 				out = append(out, "src:badmsg")
 			}
+			if !e.src.blockCloseSend {
+				out = append(out, "closesendblock:src")
+			}
 			if !e.failSrc && !e.blockSrc {
 				out = append(out, "sendfail:src")
 				if !e.failIni && !e.iniFailed {
@@ -336,6 +340,9 @@ func (e *vfFwdExec) apply(a string) error {
 		e.failSrc = true
 	case "sendblock:src":
 		e.blockSrc = true
+	case "closesendblock:src":
+		// from now on the half-close towards the source cannot be written: CloseSend blocks until the stream's context ends
+		e.src.blockCloseSend = true
 	case "adv":
 		e.now++
 		time.Sleep(time.Second)
@@ -395,7 +402,7 @@ func (e *vfFwdExec) key() string {
 	if e.sc.Sibling {
 		sib = fmt.Sprintf(" sib=%v/%v", e.sibEnded, e.sibIni != nil && e.sibIni.returned)
 	}
-	return sib + fmt.Sprintf("bs=%v/%v ", e.blockSrc, e.srcBlocked) + fmt.Sprintf("t=%d end=%s sr=%d gr=%d sa=%d ga=%d fi=%v fs=%v if=%v sf=%v ini=%v/%v/%v/%v src=%s open=%v",
+	return sib + fmt.Sprintf("bs=%v/%v/%v ", e.blockSrc, e.srcBlocked, e.src != nil && e.src.blockCloseSend) + fmt.Sprintf("t=%d end=%s sr=%d gr=%d sa=%d ga=%d fi=%v fs=%v if=%v sf=%v ini=%v/%v/%v/%v src=%s open=%v",
 		e.now, e.ending, len(e.sentResp), len(e.gotResp), len(e.sentAck), len(e.gotAck), e.failIni, e.failSrc, e.iniFailed, e.srcFailed,
 		e.ini.returned, e.ini.broken, e.ini.ctx.Err() != nil, e.ini.atHome(), srcState, e.opened)
 }
@@ -491,6 +498,10 @@ func vfRunFwd(t *testing.T, job *vfFwdJob) (out vfFwdOut) {
 			time.Sleep(3 * time.Second)
 			synctest.Wait()
 			blocked("at the end")
+			if os.Getenv("VERIF_DEBUG_STACKS") != "" {
+				buf := make([]byte, 1<<20)
+				os.Stderr.Write(buf[:runtime.Stack(buf, true)])
+			}
 			// goroutines parked on a lock nobody will release can never finish: make them exit so the bubble can end
 			vrt.AbandonBlockedLockers()
 			synctest.Wait()
@@ -651,7 +662,7 @@ func TestVerifC06(t *testing.T) {
 	res.Set("distinct_outcomes", int64(len(outcomes)))
 	res.Set("exhaustive", exhaustive && len(harnessErrs) == 0)
 	res.Set("harness_errors", harnessErrs)
-	res.Set("alphabet", fmt.Sprintf("modes default,lcm; <=%d responses and <=%d sync-states; endings: source EOF/error/response without Messages, initiator EOF/error/context cancelled/request that is not SyncReplicationState, next Send to initiator fails, next Send to source fails, next Send to source blocks until the stream's context ends, opening the source stream fails; 1 s time step", n, n))
+	res.Set("alphabet", fmt.Sprintf("modes default,lcm; <=%d responses and <=%d sync-states; endings: source EOF/error/response without Messages, initiator EOF/error/context cancelled/request that is not SyncReplicationState, next Send to initiator fails, next Send to source fails, next Send to source blocks until the stream's context ends, CloseSend towards the source blocks until the stream's context ends, opening the source stream fails; 1 s time step", n, n))
 	res.Set("explanation", "every transition executes the real StreamWorkflowReplicationMessages -> handleStream -> StreamForwarder.Run in a synctest bubble; after every path the ending contract (handler returns, source stream closed and cancelled, no goroutine left) is checked; no separate model")
 	os := make([]string, 0, len(outcomes))
 	for o := range outcomes {
